@@ -196,6 +196,7 @@ class Tree:
             if f.module.is_test():
                 continue
             positive_ifexps(f.node)
+            inline_single_use_temps(f.node)
             ifexp_to_if(f.node)
             unroll_literal_loops(f.node)
             updates_to_loops(f.node)
